@@ -377,9 +377,13 @@ func checkC06(c C06Case, o *h.Obs) *h.Fail {
 	case "div":
 		yd := mk(yw, c.Y)
 		yv := model.MkFinite(false, c.Y, int64(len(c.Y)))
+		// one receiver for all four quotients, holding a long all-nines value first: the quotient buffer is reused
+		// and dirty every time (the kernels accumulate into it at some sizes)
+		z := new(decimal.Decimal).SetPrec(uint(len(c.X)) + 5*h.DW)
+		z.SetBitsExp(h.DigitsToWords(strings.Repeat("9", len(c.X)+5*h.DW)), 3)
 		for _, p := range []uint{uint(len(c.X)-len(c.Y)) + 2, 7} {
 			for _, m := range []uint8{0, 3} {
-				z := mkRecv(p, m)
+				z.SetMode(decimal.RoundingMode(m)).SetPrec(p)
 				z.Quo(xd, yd)
 				got := h.Read(z)
 				want := model.Quot(xv, yv, uint64(p), model.Mode(m))
@@ -392,7 +396,7 @@ func checkC06(c C06Case, o *h.Obs) *h.Fail {
 	return nil
 }
 
-const ruleC06 = "rapid-generated (kind, operands as base-10^19 word vectors, threshold assignment): lengths 1..300 (quick) / 1..1000 (thorough) words, balanced and unbalanced, words drawn in runs from {0, 10^19-1, 5*10^18, 5*10^18-1, 10^k, 10^k-1, small, 1, near-max, uniform}; dividends built as q*v+r with r in {0, 1, v-1, random}, divisor top words at the normalisation boundaries, divisor lengths on both sides of the recursive-division threshold (100); thresholds per case: shipped, schoolbook-only, recurse-to-the-bottom, or Karatsuba 2..40 / basicSqr 1..30 / karatsubaSqr 2..60. Oracle: math/big Int.Mul and Int.QuoRem on the same numbers (q*v+r==u and 0<=r<v follow), results normalized with all words < 10^19, identical under the drawn and the shipped thresholds, operands unmodified; then the same operands through Mul / Mul(x,x) / Quo (value and exact-vs-inexact accuracy against the reference model). Non-trivial = both operands >= 2 words. The add-back branch of divBasic is counted by the hook build (measured.divBasic_addback_hits)."
+const ruleC06 = "rapid-generated (kind, operands as base-10^19 word vectors, threshold assignment): lengths 1..300 (quick) / 1..1000 (thorough) words, balanced and unbalanced, words drawn in runs from {0, 10^19-1, 5*10^18, 5*10^18-1, 10^k, 10^k-1, small, 1, near-max, uniform}; dividends built as q*v+r with r in {0, 1, v-1, random}, divisor top words at the normalisation boundaries, divisor lengths on both sides of the recursive-division threshold (100); thresholds per case: shipped, schoolbook-only, recurse-to-the-bottom, or Karatsuba 2..40 / basicSqr 1..30 / karatsubaSqr 2..60. Oracle: math/big Int.Mul and Int.QuoRem on the same numbers (q*v+r==u and 0<=r<v follow), results normalized with all words < 10^19, identical under the drawn and the shipped thresholds, operands unmodified; then the same operands through Mul / Mul(x,x) / Quo (value and exact-vs-inexact accuracy against the reference model; the four quotients of a case go into one receiver that first held a longer all-nines value, so that its buffer is reused and dirty). Non-trivial = both operands >= 2 words. The add-back branch of divBasic is counted by the hook build (measured.divBasic_addback_hits)."
 
 var propC06 = &h.Prop[C06Case]{ID: "C06", Rule: ruleC06, Gen: genC06, Check: checkC06, Matchers: map[string]func(C06Case) bool{}}
 
